@@ -7,8 +7,10 @@ sys.path.insert(0, os.path.join(here, '..', '..', 'tools'))
 sys.path.insert(0, os.path.join(here, '..', 'shared'))
 from prover import Proof  # noqa: E402
 import tokenizer_proofs  # noqa: E402
+import output_proofs  # noqa: E402
+import outtext_proofs  # noqa: E402
 NEED_OPTIONS = True
-MACRO_HEADERS = ['tokenizer_macros.h']
+MACRO_HEADERS = ['tokenizer_macros.h']   # proofs from output_proofs carry their own macro_headers
 IMPL, SPEC = 'contracts/C02/list.impl.cpp', 'contracts/C02/list.spec.c'
 
 
@@ -39,16 +41,19 @@ def _c19():
     return [p for p in m.PROOFS if p.name in ('ensure_force_space', 'space_needed')]
 
 
+PROOFS += output_proofs.select(['add_text_ascii', 'output_to_column'])   # K4: columns never move left, only blanks/tabs are written while advancing
+PROOFS += [outtext_proofs.iteration_proof()]   # K5: every chunk's text is written once, at or right of where the previous text ended
 PROOFS += _c19()   # K3: the fusion guard (PCF_FORCE_SPACE) overrides Remove
 EXPLANATION = ('Kernel of C02. (1) ChunkListManager: every primitive preserves the doubly-linked-list representation invariant and changes the sequence exactly as '
                'specified (Remove: sequence minus obj; AddAfter/AddBefore/AddTail/AddHead: obj inserted at the stated place; Swap: the two exchanged), stated for an '
                'arbitrary observer node. Small-model argument: the primitives are loop free and dereference only their arguments and those arguments\' direct '
                'neighbours (at most 6 nodes); with one arbitrary observer the restriction of any heap to the touched nodes embeds into the pool of 8 nodes with '
                'arbitrary links used here, so the pool is exhaustive, not a bound. (2) the tokenizer white-space primitives consume only white space.')
-K = ['K1 ChunkListManager::{Remove, AddAfter, AddBefore, AddTail, AddHead, Swap}', 'K3 ensure_force_space / space_needed: a pair flagged PCF_FORCE_SPACE always gets at least one space', 'K2 parse_whitespace / parse_newline / parse_bs_newline / parse_off_newlines discard only white space']
+K = ['K1 ChunkListManager::{Remove, AddAfter, AddBefore, AddTail, AddHead, Swap}', 'K3 ensure_force_space / space_needed: a pair flagged PCF_FORCE_SPACE always gets at least one space', 'K2 parse_whitespace / parse_newline / parse_bs_newline / parse_off_newlines discard only white space',
+     'K5 output_text (one iteration): a chunk with text is written exactly once by add_text(its own str) after output_to_column(its column); when not first on the line the column is first pushed right to cpd.column (reindent_line) so texts never overlap; chunks without text write nothing',
+     'K4 output_to_column: the column never moves left (exactly max(old, requested)) and only blanks/tabs are issued']
 G = ['combine/brace_cleanup/newline/align passes change the list only through these primitives (static fact: m_next/m_prev are written only in ListManager.h and chunk.cpp) and do not edit m_str of non-comment chunks',
-     'space_text sets PCF_FORCE_SPACE exactly on the pairs that would lex differently (the "general safety check" of space_text, 350-line loop): not under contract; output_text dispatch: not under contract',
-     'output_to_column never moves left: contract written, proof does not close yet (WIP)',
+     'space_text sets PCF_FORCE_SPACE exactly on the pairs that would lex differently (the "general safety check" of space_text, 350-line loop): not under contract',
      'AddAfter requires obj to be unlinked (it does not call Remove itself): a caller-side precondition, callers not verified',
      '"every directive stays on its logical line" (newline passes) and nine-language lexing: NOT covered']
 
@@ -58,7 +63,7 @@ def static_facts(repo):
     import subprocess
     out = subprocess.run(['grep', '-rnE', r'\bm_(next|prev)\s*=[^=]', os.path.join(repo, 'src'), '--include=*.cpp', '--include=*.h'], stdout=subprocess.PIPE, text=True).stdout
     bad = [l for l in out.splitlines() if not re.search(r'/(ListManager\.h|chunk\.cpp|chunk\.h):', l)]
-    return [('Chunk::m_next / m_prev are assigned only in ListManager.h, chunk.cpp, chunk.h', not bad, '; '.join(bad)[:300])]
+    return [('Chunk::m_next / m_prev are assigned only in ListManager.h, chunk.cpp, chunk.h', not bad, '; '.join(bad)[:300])] + outtext_proofs.static_facts(repo)
 
 sys.path.insert(0, os.path.join(os.path.dirname(os.path.abspath(__file__)), '..', '..', 'tools'))
 import replay_lib  # noqa: E402
